@@ -310,6 +310,19 @@ Theorem c07_search_elif_refuted :
   Inv ascii_fold st_named ∧ search_spec ascii_fold [97]%N st_named 1 ∧ 1 ∉ (search_sh ascii_fold search_shape_elif [97]%N st_named).1.
 Proof. exact search_elif_refuted. Qed.
 
+(** Round 5, seeded fault c07_5 ([ents = self.by_target.get(name) or self.by_class.get(name); if ents: yield from ents]):
+    the search programs now have plain lookups ([PYieldGetTarget] / [PYieldGetClass]: nothing is inserted) and
+    non-emptiness tests ([CNeTarget] / [CNeClass]), so the `or` form is a program with a meaning.  It fails the
+    obligation about the exact branch, and when an entity is named like another one's class the search for that class
+    misses the entity of that class; two plain lookups one after the other pass (and find it). *)
+Theorem c07_search_or_refuted :
+  search_shape_ok search_shape_or = false ∧ search_shape_ok search_shape_two_gets = true ∧
+  let st_named := run ascii_fold [CreateEnt [97]%N []; CreateEnt [98]%N [(tn, [65]%N)]] init in
+  Inv ascii_fold st_named ∧ search_spec ascii_fold [97]%N st_named 1 ∧
+  1 ∉ (search_sh ascii_fold search_shape_or [97]%N st_named).1 ∧
+  1 ∈ (search_sh ascii_fold search_shape_two_gets [97]%N st_named).1.
+Proof. exact search_or_refuted. Qed.
+
 (** Round 3: today's maintenance program and add_ents pass their obligations; the shapes of seeded faults c07_3
     (rejected re-class of the worldspawn reverted by a direct store: ValueError is raised, the keyvalue is back,
     the worldspawn is gone from by_class) and c07_4 (add_ents iterates its argument twice: with a generator the
@@ -402,6 +415,12 @@ Theorem c07_remove_ent_variants_refuted :
    remove_still_listed_stays_indexed remove_ent_and_guard = false ∧
    ¬ Inv ascii_fold (v_run ascii_fold remove_ent_and_guard 0 init)).
 Proof. exact listops_refutations. Qed.
+
+Theorem c07_remove_ent_cached_flag_refuted :
+  remove_worldspawn_stays_indexed remove_ent_cached_flag = false ∧
+  remove_still_listed_stays_indexed remove_ent_cached_flag = false ∧
+  remove_unlists_and_unindexes remove_ent_cached_flag = false.
+Proof. exact remove_cached_flag_refuted. Qed.
 
 (** Entity.clear: today's step list passes; without `del self['targetname']` before the dict is emptied the entity
     keeps its old name in by_target (computed witness on a reachable state). *)
